@@ -241,8 +241,6 @@ def body(c):
             full.append((mode, pre + d + post))
     for i, (mode, d) in enumerate(full):
         add(mode, "valid", toks=d, style=2)
-        if not q:
-            add(mode, "valid", toks=d, style=3)
         if i % 3 == 0 or not q:
             add(mode, "valid", toks=d, style=0)
     for mode, text, seps in SEEDS:
@@ -260,7 +258,7 @@ def body(c):
             for seq in itertools.product(tiny, repeat=n):
                 add(mode, "exact", toks=[list(t) for t in seq], style=1)
     for i, (mode, d) in enumerate(full):
-        if q and i % 2:
+        if i % 2:
             continue
         for mdoc in mutants(d, EXEC_POOL if mode == "exec" else SDL_POOL, rng, 1):
             add(mode, "nearmiss", toks=mdoc, style=1)
@@ -336,7 +334,7 @@ def body(c):
                      "alphabets, seeded single-edit mutants of the valid sequences, selection sets nested 1..100 deep; (3) every code-point-class "
                      "text of the lexer runs %s (quoted strings, number/name runs, block-string bodies) inside a list value. Every case is judged "
                      "by TLC (recogniser + denoted tree); all cases are non-trivial; distinct by (mode, tokens, gaps, text)"
-                     % ("RunsQuick" if q else "RunsThorough", ndocs, "1-2" if q else "3", lp, "LRunsQuick" if q else "LRunsThorough"))
+                     % ("RunsQuick" if q else "RunsThorough", ndocs, "1-2" if q else "2", lp, "LRunsQuick" if q else "LRunsThorough"))
     picks = [o for o in obs if o["mode"] == "exec" and o["acc"] == "yes"][:1] + [o for o in obs if o["mode"] == "sdl" and o["acc"] == "yes"][-1:] + \
             [o for o in obs if o["mode"] == "lex" and o["acc"] == "yes"][-1:]
     for o in picks:
